@@ -16,8 +16,8 @@ use std::{
 };
 use thiserror::Error;
 use wac_types::{
-    BorrowedKey, BorrowedPackageKey, DefinedType, ItemKind, Package, PackageKey, SubtypeChecker,
-    Type, TypeAggregator, Types, ValueType,
+    are_semver_compatible, BorrowedKey, BorrowedPackageKey, DefinedType, ItemKind, Package,
+    PackageKey, SubtypeChecker, Type, TypeAggregator, Types, ValueType,
 };
 use wasm_encoder::{
     Alias, ComponentBuilder, ComponentExportKind, ComponentNameSection, ComponentTypeRef,
@@ -1643,9 +1643,24 @@ impl<'a> CompositionGraphEncoder<'a> {
             let node = &self.0.graph[n];
             if let NodeKind::Import(name) = &node.kind {
                 explicit_imports.insert(name.as_str(), n);
+                // An explicit import can still conflict with an implicit import whose name
+                // is semver-compatible with (rather than equal to) the explicit name.
                 aggregator = aggregator
                     .aggregate(name, self.0.types(), node.item_kind, &mut checker)
-                    .unwrap();
+                    .map_err(|e| EncodeError::ImportTypeMergeConflict {
+                        import: name.clone(),
+                        first: NodeId(
+                            implicit_imports
+                                .iter()
+                                .find(|(implicit, _)| {
+                                    *implicit == name || are_semver_compatible(implicit, name)
+                                })
+                                .map(|(_, index)| *index)
+                                .unwrap_or(n),
+                        ),
+                        second: NodeId(n),
+                        source: e,
+                    })?;
             }
         }
         Ok(aggregator)
